@@ -7,16 +7,29 @@
    content of the memory; every queue capacity.  Numbers are Z; the uint32/uint64/uint16 arithmetic
    of the Go code is explicit in the model.
 
-   Status.  The full statements (C03_*_full) are FALSE of the faithful model at the 4 GiB corner and
-   are refuted below by computed witnesses; the strongest proved versions carry exactly the guards
-   the proofs forced:
-     (G1) memLen + 36 < 2^32     mapping shorter than 4 GiB - 36 B (implies size + 20 < 2^32)
-     (G2) 24 + 12*cap < 2^32     queue byte size does not wrap
-     (G3) #pairs < 65536         the list count is stored in a uint16 (only needed for the peer view;
-                                 no refuting input is known under G1 — VerifyConfig's sum=100 rule
-                                 allows at most 100 classes)
-   A negative region capacity (more list headers than bytes) needs NO guard: the bounds checks of
-   createFreeBufferList reject or contain it. *)
+   Status.
+   * Queues: the full statement holds (C03_queues, C03_queues_memfd) since /repo 97d22d3.
+   * Buffers / peer view, arbitrary inputs: the full statements (C03_buffers_full, C03_peer_view_full:
+     ANY uint32 percentages, any mapping length) are FALSE of the faithful model at the 4 GiB corner and
+     are refuted below by computed witnesses; proved under the forced guards
+       (G1) memLen + 36 < 2^32     mapping shorter than 4 GiB - 36 B (implies size + 20 < 2^32)
+       (G3) #pairs < 65536         the list count is a uint16 (peer view only)
+     (C03_buffers_partial, C03_peer_view_partial).  A negative region capacity (more list headers than
+     bytes) needs NO guard: the bounds checks of createFreeBufferList reject or contain it.
+   * Buffers / peer view, configurations the real code ACCEPTS (config_ok = what VerifyConfig and the
+     type of Config.ShareMemoryBufferCap enforce: capacity < 2^32, at least one pair, every size <=
+     capacity, percentages summing to 100 IN INT): C03_buffers_config and C03_peer_view_config hold up
+     to the last byte below 4 GiB, with two extra hypotheses the code does not enforce:
+       (H1) size + 20 < 2^32 for every pair.  NOT excluded by VerifyConfig and REFUTED on accepted input:
+            ShareMemoryBufferCap = 2^32-1, BufferSliceSizes = [{2^32-20, 100}] passes VerifyConfig and
+            createBufferManager divides by zero (C03_buffers_refuted; reproduced on the real code by the
+            harness on a lazily backed 4 GiB mapping; reported as C03:slice-size-plus-header-wraps).
+       (H2) 36*#pairs + 8 <= capacity.  VerifyConfig does not bound the number of pairs; together with
+            C03_buffers_partial the only accepted configurations left uncovered have a capacity within
+            36 bytes of 4 GiB AND more than 119 million pairs.
+     The second witness (wit_caseB: a percentage of 2^32-1) is rejected by VerifyConfig — its percent
+     sum in int is 4294967318, not 100 — and so is every configuration with a wrapping percentage
+     (C03_refutations_vs_VerifyConfig). *)
 From Coq Require Import List ZArith Lia Bool.
 From Shm Require Import Gen.Consts Model.Layout Proofs.LayoutProofs.
 Import ListNotations.
@@ -88,8 +101,38 @@ Theorem C03_buffers_refuted_small_sizes : ~ C03_buffers_full.
 Proof. exact buffers_refuted_small_sizes. Qed.
 Print Assumptions C03_buffers_refuted_small_sizes.
 
+(* configurations the code accepts (VerifyConfig + uint32 capacity) plus H1, H2: valid up to 4 GiB - 1 *)
+Theorem C03_buffers_config : forall pairs memLen m0,
+  config_ok memLen pairs ->
+  match create_bm pairs memLen m0 with
+  | Err _ => True
+  | Panic _ => False
+  | Ok (cs, _) =>
+    map cl_capPerBuffer cs = map fst pairs /\
+    Forall (fun c => 1 <= cl_cap c) cs /\
+    slots_in_bounds memLen cs /\ slots_disjoint cs /\ headers_clear cs
+  end.
+Proof. exact buffers_config. Qed.
+Print Assumptions C03_buffers_config.
+
+(* which refuting witness the real code lets through: VerifyConfig's rules accept the division-by-zero
+   witness (only H1 fails) and reject the wrapping-percentage witness (sum in int <> 100) *)
+Theorem C03_refutations_vs_VerifyConfig :
+  (1048576 <= wit_mem < 4294967296 /\ wit_div0 <> [] /\
+   Forall (fun p => 0 <= fst p <= wit_mem /\ 0 <= snd p) wit_div0 /\ sum_pct wit_div0 = 100 /\
+   c_bufferListHeaderSize * Z.of_nat (length wit_div0) + c_bufferManagerHeaderSize <= wit_mem) /\
+  sum_pct wit_caseB <> 100.
+Proof. exact (conj wit_div0_accepted_by_VerifyConfig wit_caseB_rejected_by_VerifyConfig). Qed.
+Print Assumptions C03_refutations_vs_VerifyConfig.
+
 (* ---------------------------------------------------------------------------------------------- *)
 (* peer view *)
+Theorem C03_peer_view_config : forall pairs memLen m0 cs m',
+  config_ok memLen pairs ->
+  create_bm pairs memLen m0 = Ok (cs, m') -> map_bm memLen m' = Ok cs.
+Proof. exact peer_view_config. Qed.
+Print Assumptions C03_peer_view_config.
+
 Theorem C03_peer_view_partial : forall pairs memLen m0 cs m',
   0 <= memLen -> pairs_ok memLen pairs ->
   memLen + c_bufferListHeaderSize < 4294967296 ->                         (* G1 *)
@@ -128,26 +171,24 @@ Print Assumptions C03_initial_chain.
 
 (* ---------------------------------------------------------------------------------------------- *)
 (* queues *)
-Theorem C03_queues_partial : forall cap m,
-  0 <= cap ->
-  c_queueHeaderLength + c_queueElementLen * cap < 4294967296 ->           (* G2 *)
-  exists A memSize m' B,
-    create_qm cap m = Ok (A, memSize, m') /\ map_qm memSize m' = Ok B /\
-    queues_ok cap A memSize /\
-    qm_send B = qm_recv A /\ qm_recv B = qm_send A.
-Proof. exact queues_spec. Qed.
-Print Assumptions C03_queues_partial.
+(* holds for EVERY uint32 capacity since /repo commit 97d22d3 (ring end computed in int).  What the
+   model does not contain and the theorem therefore does not speak about: the size of the mapping is
+   a Go int (2*(24+12*cap) < 2^37, no wrap on the 64-bit platforms the library supports); whether
+   ftruncate/mmap of that many bytes succeeds is the kernel's business (an error, not a layout); the
+   arm64 branch of mappingQueueFromBytes (other header-field offsets, QueueCap % 8 = 0 demanded by
+   VerifyConfig) is not modelled. *)
+Theorem C03_queues : C03_queues_full.
+Proof. exact queues_full_holds. Qed.
+Print Assumptions C03_queues.
 
 (* the same for the memfd back-end (createQueueManagerWithMemFd / mappingQueueManagerMemfd) *)
-Theorem C03_queues_memfd_partial : forall cap m,
-  0 <= cap ->
-  c_queueHeaderLength + c_queueElementLen * cap < 4294967296 ->           (* G2 *)
+Theorem C03_queues_memfd : forall cap m, 0 <= cap < 4294967296 ->
   exists A memSize m' B,
     create_qm_memfd cap m = Ok (A, memSize, m') /\ map_qm_memfd memSize m' = Ok B /\
     queues_ok cap A memSize /\
     qm_send B = qm_recv A /\ qm_recv B = qm_send A.
-Proof. exact queues_spec_memfd. Qed.
-Print Assumptions C03_queues_memfd_partial.
+Proof. exact queues_full_memfd_holds. Qed.
+Print Assumptions C03_queues_memfd.
 
 (* the cross-wiring on the half indices generated from the four functions of queue.go
    (0 = mem[:size/2], 1 = mem[size/2:]): create.send = map.recv, create.recv = map.send, and the two
@@ -165,10 +206,14 @@ Theorem C03_cross_wiring :
 Proof. exact (conj wiring_file wiring_memfd). Qed.
 Print Assumptions C03_cross_wiring.
 
-(* without G2: cap = 357913940, 24 + 12*cap = 2^32 + 8, data[24:8] panics *)
-Theorem C03_queues_refuted : ~ C03_queues_full.
-Proof. exact queues_refuted. Qed.
-Print Assumptions C03_queues_refuted.
+(* regression (documents the behaviour repaired by 97d22d3, the three fixed known_findings entries "C03:queue-cap-wrap-..."): with
+   the former uint32 formula the ring end for cap = 357913940 is 8 — below the 24-byte header, the slice
+   expression data[24:8] panicked — and for cap = 357913942 it is 32: a queue that claims 357913942
+   elements over a ring of 8 bytes.  The int formula gives 4294967328. *)
+Example C03_regression_queue_cap_wrap :
+  ring_end_uint32 357913940 = 8 /\ ring_end_uint32 357913942 = 32 /\
+  c_queueHeaderLength + 357913942 * c_queueElementLen = 4294967328.
+Proof. exact ring_end_uint32_regression. Qed.
 
 (* ---------------------------------------------------------------------------------------------- *)
 (* the function evaluated by the correspondence check is the model *)
